@@ -8,7 +8,7 @@ from vlib.core import cz, cnat, cbool, clist, cstr
 PROPS = ["Props/C16.v", "Props/C16src.v"]
 THEOREMS = ["C16_lengths_aligned", "C16_lengths_refuted_without_repair", "C16_robust_fit_total", "C16_ten_faults_refuted",
             "C16_rows_exhausted_refuted", "C16_init_training_terminates", "C16_init_training_unbounded", "C16_update_fallback",
-            "C16_retry_loop_is_source", "C16_drop_is_applied_to_all_three_is_source", "C16_init_retry_is_source"]
+            "C16_retry_loop_is_source", "C16_drop_is_applied_to_all_three_is_source", "C16_init_retry_is_source", "C16_restart_is_source"]
 TRANSLATORS = ["fitretry"]
 LEVEL = "proof"
 ALLOWED_AXIOMS = []
